@@ -31,6 +31,10 @@ CONSTANTS
   Suspenders,     \* names of suspender objects (SuspendBoolHigh-like: trip on a truthy value, release on a falsy one)
   SigOf,          \* [suspender -> name of the signal it watches]   (at most one suspender per signal)
   SusFuts,        \* [suspender -> sequence of future names]: the asyncio.Event of its n-th trip
+  NoReplayDevs,   \* pausable devices whose pause() raises NoReplayAllowed (the engine then resets its checkpoint state: nothing is
+                  \* replayed after this pause / suspension); assumed disjoint from AsyncDevs
+  SusBand,        \* suspenders whose resume condition is not the negation of the trip condition (SuspendFloor with resume_thresh):
+                  \* signal value 2 lies in the dead band -- it neither trips nor releases
   AsyncDevs,      \* devices whose stop()/pause()/resume() are coroutines that really suspend (ophyd-async style):
                   \* every such call is a further parking place of the run task (pc = "aops")
   FlyStream,      \* [flyer -> name of the event stream its describe_collect() announces] (old-style, doubly nested)
@@ -205,7 +209,9 @@ FirstAwait(L) == IF \E i \in 1..Len(L) : Awaits(L[i]) THEN CHOOSE i \in 1..Len(L
 OpsDoneNow(L) == IF FirstAwait(L) = 0 THEN L ELSE SubSeq(L, 1, FirstAwait(L))
 OpsLeft(L) == IF FirstAwait(L) = 0 THEN <<>> ELSE SubSeq(L, FirstAwait(L) + 1, Len(L))
 OpsParks(L) == FirstAwait(L) # 0
-EvOps(L) == [i \in 1..Len(L) |-> EvDev(L[i][1], L[i][2], "", 0)]
+EvOps(L) == [i \in 1..Len(L) |-> EvDev(L[i][1], L[i][2], IF L[i][2] = "pause" /\ L[i][1] \in NoReplayDevs THEN "noreplay" ELSE "", 0)]
+\* some device paused by this pause sequence / suspension refuses replay
+NoReplay(s) == s.seen \cap Pausables \cap NoReplayDevs # {}
 
 \* num_events lines that follow a stop document (one per counter present, in StreamOrder)
 RECURSIVE NevFrom(_, _, _)
@@ -368,7 +374,7 @@ Release(f) ==
 \* asks for is only SCHEDULED on the loop (susq): the engine's state is tested here, the request lands later (SusLand)
 SusCallback(s, x, v) ==
   LET u == s.sus[x] IN
-  IF ~u.inst THEN s
+  IF ~u.inst \/ v = 2 THEN s          \* (2: inside the dead band of a SusBand suspender: nothing happens)
   ELSE IF v # 0 THEN
        \* condition tripped: an asyncio.Event is made the first time; a suspension is requested ONLY if the engine is 'running'
        IF u.ev # 0 THEN [s EXCEPT !.sus[x].tripped = TRUE]
@@ -398,8 +404,8 @@ SusRemove(x) ==
 \* the watched signal changes (sig.put(v)): logged, then the subscribed suspender's callback runs in the caller's thread --
 \* concurrently with the loop thread, so a request scheduled just before may land before the callback tests the state
 SigPut(sg, v) ==
-  /\ AnyTime /\ v \in {0, 1}
-  /\ \E x \in Suspenders : SigOf[x] = sg
+  /\ AnyTime /\ v \in {0, 1, 2}
+  /\ \E x \in Suspenders : SigOf[x] = sg /\ (v = 2 => x \in SusBand)
   /\ LET x == CHOOSE y \in Suspenders : SigOf[y] = sg
      IN \* (whether a callback runs at all is decided now: only a subscribed suspender is called)
         S' = [S EXCEPT !.sigv[x] = v, !.cbq = IF S.sus[x].inst THEN Append(@, <<x, v>>) ELSE @, !.pendRet = Append(@, "sig_put")]
@@ -518,7 +524,7 @@ Top ==
                          /\ S' = [s1 EXCEPT !.pc = "aops", !.cont = "pausing", !.pend = OpsLeft(L)]
                          /\ obs' = ev1 \o EvOps(OpsDoneNow(L))
                       ELSE
-                         /\ S' = [s1 EXCEPT !.st = "paused", !.pc = "paused", !.blocking = TRUE]
+                         /\ S' = [(IF NoReplay(s1) THEN ResetCkpt(s1) ELSE s1) EXCEPT !.st = "paused", !.pc = "paused", !.blocking = TRUE]
                          /\ obs' = ev1 \o EvOps(L) \o <<EvState("pausing", "paused")>>
                 ELSE \* `assert self._state == "pausing"` fails: AssertionError leaves the loop
                    /\ S' = ExitWith([S EXCEPT !.st = st1], "Err:AssertionError") /\ obs' = ev1
@@ -681,9 +687,10 @@ MonApply(r, m) ==
             !.ctr[sn] = IF @ = 0 THEN 1 ELSE @]
 
 \* _start_suspender after the devices have been put to rest: rewind, push the helper plan (1275-1309)
-SuspRest(s1) ==
-  IF ~s1.cacheOn THEN Done(s1, Exc("Err:TypeError"))      \* len(None) in _rewind
-  ELSE LET s2 == Rewound(s1)
+SuspRest(s0) ==
+  IF ~s0.cacheOn THEN Done(s0, Exc("Err:TypeError"))      \* len(None) in _rewind
+  ELSE LET s1 == IF NoReplay(s0) THEN ResetCkpt(s0) ELSE s0      \* (a paused device raised NoReplayAllowed: cache emptied first)
+           s2 == Rewound(s1)
            helper == ListGen(HelperMsgs(s1.cur, s1.rewindable, s1.cache))
        \* the helper is pushed by the command itself; the command's own response (None) is
        \* pushed afterwards by the finally clause -- ABOVE the helper's initial response
@@ -1089,7 +1096,7 @@ AOpsStep(cr, bad) ==
      ELSE CASE S.cont = "pausing" ->
                  \* `self._state = "paused"` is a checked transition: only pausing -> paused is legal
                  IF "paused" \in Table[S.st]
-                 THEN /\ S' = [S EXCEPT !.st = "paused", !.pc = "paused", !.blocking = TRUE, !.pend = <<>>, !.cont = ""]
+                 THEN /\ S' = [(IF NoReplay(S) THEN ResetCkpt(S) ELSE S) EXCEPT !.st = "paused", !.pc = "paused", !.blocking = TRUE, !.pend = <<>>, !.cont = ""]
                       /\ obs' = EvOps(L) \o <<EvState(S.st, "paused")>>
                  ELSE /\ S' = ExitWith([S EXCEPT !.pend = <<>>, !.cont = ""], "TransitionError") /\ obs' = EvOps(L)
             [] S.cont = "susp" -> /\ S' = SuspRest([S EXCEPT !.pend = <<>>, !.cont = ""]) /\ obs' = EvOps(L)
